@@ -291,6 +291,16 @@ theorem dropLastKept_sub (tol : Rat) (kept1 : List (Rat × Rat)) :
     · exact List.Sublist.refl _
   · exact List.Sublist.refl _
 
+theorem dedupAdj_sublist : ∀ l : List (Rat × Rat), (dedupAdj l).Sublist l
+  | [] => by simp [dedupAdj]
+  | [_] => by simp [dedupAdj]
+  | a :: b :: rest => by
+    unfold dedupAdj
+    split_ifs
+    · exact (dedupAdj_sublist (a :: rest)).trans ((List.sublist_cons_self b rest).cons_cons a)
+    · exact (dedupAdj_sublist (b :: rest)).cons_cons a
+termination_by l => l.length
+
 theorem cleanCurve_sublist (tol : Rat) (y x : List Rat) (out : List (Rat × Rat))
     (h : cleanCurve tol y x = .ok out) : out.Sublist (x.zip y) := by
   unfold cleanCurve at h
@@ -301,7 +311,12 @@ theorem cleanCurve_sublist (tol : Rat) (y x : List Rat) (out : List (Rat × Rat)
     simp only at h
     have hpts : (((x.zip y).drop s).take (e + 1 - s)).Sublist (x.zip y) :=
       (List.take_sublist _ _).trans (List.drop_sublist _ _)
-    generalize ((x.zip y).drop s).take (e + 1 - s) = pts at h hpts
+    generalize ((x.zip y).drop s).take (e + 1 - s) = pts0 at h hpts
+    by_cases hlen0 : pts0.length ≤ 2
+    · rw [if_pos hlen0] at h; cases h; exact hpts
+    rw [if_neg hlen0] at h
+    have hpts : (dedupAdj pts0).Sublist (x.zip y) := (dedupAdj_sublist pts0).trans hpts
+    generalize dedupAdj pts0 = pts at h hpts
     by_cases hlen : pts.length ≤ 2
     · rw [if_pos hlen] at h; cases h; exact hpts
     · rw [if_neg hlen] at h
